@@ -379,7 +379,11 @@ class Simulator(BaseSimObj):
             f"{self.scheduler.__module__}." f"{self.scheduler.__class__.__name__}"
         )
 
-        attribute_dict["start"] = self.start.strftime("%H:%M:%S.%f %d%m%Y")
+        start_format = "%H:%M:%S.%f %d%m%Y"
+        if self.start.utcoffset() is not None:
+            # An aware start keeps its UTC offset (the instant and its local reading).
+            start_format += " %z"
+        attribute_dict["start"] = self.start.strftime(start_format)
 
         try:
             json.dumps(self.signals)
@@ -473,7 +477,10 @@ class Simulator(BaseSimObj):
             )
             scheduler = BaseAlgorithm()
 
-        start = datetime.strptime(attribute_dict["start"], "%H:%M:%S.%f %d%m%Y")
+        try:
+            start = datetime.strptime(attribute_dict["start"], "%H:%M:%S.%f %d%m%Y %z")
+        except ValueError:
+            start = datetime.strptime(attribute_dict["start"], "%H:%M:%S.%f %d%m%Y")
 
         out_obj = cls(
             network,
